@@ -1,6 +1,7 @@
 import Oracle.Util
 import Oracle.C12
 import MobiusModel.Presence
+import MobiusModel.PresenceAbort
 /-! Oracle handlers for C13 (model functions exposed on the line protocol). -/
 namespace Oracle
 open Mobius
@@ -20,6 +21,26 @@ def parsePresEvs : List String → List PresEv
   | "AW" :: a :: rest => .away (num a) :: parsePresEvs rest
   | "WK" :: a :: rest => .wake (num a) :: parsePresEvs rest
   | "IM" :: a :: r :: t :: m :: q :: rest => .sendIM (num a) (num r) (num t) (hexb m) (optHex q) :: parsePresEvs rest
+  | _ => []
+
+/-- Wave d: the same tokens plus the aborted requests (`UA` set-client-user-info / `AA` agreed with a short or
+    missing Options field: actor, name, icon; `CR` a request whose handler panics before it changed anything). -/
+def parsePresReqs : List String → List PresReq
+  | "UA" :: a :: nm :: ic :: rest => .setInfoAbort (num a) (optHex nm) (optHex ic) :: parsePresReqs rest
+  | "AA" :: a :: nm :: ic :: rest => .agreedAbort (num a) (optHex nm) (optHex ic) :: parsePresReqs rest
+  | "CR" :: a :: rest => .crash (num a) :: parsePresReqs rest
+  | "C" :: l :: an :: ac :: ic :: rest => .ok (.connect (hexb l) (hexb an) (hexb ac) (hexb ic)) :: parsePresReqs rest
+  | "LN" :: l :: an :: ac :: nm :: ic :: rest => .ok (.loginNamed (hexb l) (hexb an) (hexb ac) (hexb nm) (hexb ic)) :: parsePresReqs rest
+  | "A" :: a :: r :: nm :: ic :: o :: au :: rest =>
+    .ok (.agreed (num a) (num r) (optHex nm) (optHex ic) (num o) (optHex au)) :: parsePresReqs rest
+  | "U" :: a :: r :: nm :: ic :: o :: au :: rest =>
+    .ok (.setInfo (num a) (num r) (optHex nm) (optHex ic) (optNumN o) (optHex au)) :: parsePresReqs rest
+  | "SU" :: a :: r :: l :: f :: ac :: rest => .ok (.setUser (num a) (num r) (hexb l) (f == "1") (hexb ac)) :: parsePresReqs rest
+  | "D" :: a :: rest => .ok (.disconnect (num a)) :: parsePresReqs rest
+  | "F" :: a :: r :: rest => .ok (.fetch (num a) (num r)) :: parsePresReqs rest
+  | "AW" :: a :: rest => .ok (.away (num a)) :: parsePresReqs rest
+  | "WK" :: a :: rest => .ok (.wake (num a)) :: parsePresReqs rest
+  | "IM" :: a :: r :: t :: m :: q :: rest => .ok (.sendIM (num a) (num r) (num t) (hexb m) (optHex q)) :: parsePresReqs rest
   | _ => []
 
 def entryStr (e : Entry) : String := s!"{e.id}/{dataStr e.name}/{toHex e.icon}/{e.flags}"
@@ -47,6 +68,16 @@ def c13Handlers : List (String × Handler) := [
   ("c13notes", fun (a : List String) =>
     let evs := parsePresEvs a
     let (_, outs) := PresWorld.init.run evs
+    let bad := (outs.flatten.filter fun p => noteOf p.1 != p.2)
+    if bad.isEmpty then "agree" else "differ " ++ ";".intercalate (bad.map fun p => outStr p.1 ++ "~" ++ noteStr (noteOf p.1) ++ "~" ++ noteStr p.2)),
+  -- wave d: histories with aborted requests (same answer format as c13run)
+  ("c13runx", fun (a : List String) =>
+    let qs := parsePresReqs a
+    let (w, outs) := PresWorld.init.runX qs
+    s!"{qs.length} " ++ " | ".intercalate (outs.map fun os => outsStr (os.map (·.1))) ++ " || " ++ presStateStr w),
+  ("c13notesx", fun (a : List String) =>
+    let qs := parsePresReqs a
+    let (_, outs) := PresWorld.init.runX qs
     let bad := (outs.flatten.filter fun p => noteOf p.1 != p.2)
     if bad.isEmpty then "agree" else "differ " ++ ";".intercalate (bad.map fun p => outStr p.1 ++ "~" ++ noteStr (noteOf p.1) ++ "~" ++ noteStr p.2)),
   -- the allocator: counter, then the ids in use
